@@ -9,6 +9,7 @@ import (
 	"io"
 	"io/fs"
 	"math/big"
+	"sort"
 	"strings"
 	"time"
 
@@ -240,6 +241,87 @@ func jsonDecObs(v any) string {
 	return wireOf(a[0])
 }
 
+// xmlSeqObs renders [object form with #seq, array form after to_xml] of <r>…</r> as
+// `name:seq/text;seq/text|name:… name/text,name/text,…`
+func xmlSeqObs(v any) string {
+	a, ok := v.([]any)
+	if !ok {
+		return obsOf(v)
+	}
+	if len(a) != 2 {
+		return "err"
+	}
+	str := func(v any) string {
+		switch v := v.(type) {
+		case string:
+			return v
+		case int:
+			return fmt.Sprintf("%d", v)
+		case nil:
+			return "-"
+		}
+		return fmt.Sprintf("?%T", v)
+	}
+	one := func(c any) string { // a child value: "text" or {"#seq":i,"#text":"t"}
+		switch c := c.(type) {
+		case string:
+			return "-/" + c
+		case map[string]any:
+			return str(c["#seq"]) + "/" + str(c["#text"])
+		}
+		return fmt.Sprintf("?%T", c)
+	}
+	groups := "-"
+	if o, ok := a[0].(map[string]any); ok {
+		if r, ok := o["r"].(map[string]any); ok {
+			keys := make([]string, 0, len(r))
+			for k := range r {
+				keys = append(keys, k)
+			}
+			sort.Strings(keys)
+			var gs []string
+			for _, k := range keys {
+				var items []string
+				if arr, ok := r[k].([]any); ok {
+					for _, c := range arr {
+						items = append(items, one(c))
+					}
+				} else {
+					items = append(items, one(r[k]))
+				}
+				gs = append(gs, k+":"+strings.Join(items, ";"))
+			}
+			groups = strings.Join(gs, "|")
+		} else if s, ok := o["r"].(string); !ok || s != "" {
+			groups = fmt.Sprintf("?r=%v", o["r"])
+		}
+	} else {
+		groups = "?notobject"
+	}
+	order := "-"
+	if arr, ok := a[1].([]any); ok && len(arr) == 3 {
+		if cs, ok := arr[2].([]any); ok && len(cs) > 0 {
+			var items []string
+			for _, c := range cs {
+				ce, _ := c.([]any)
+				if len(ce) != 3 {
+					items = append(items, "?")
+					continue
+				}
+				txt := "-"
+				if m, ok := ce[1].(map[string]any); ok {
+					txt = str(m["#text"])
+				}
+				items = append(items, str(ce[0])+"/"+txt)
+			}
+			order = strings.Join(items, ",")
+		}
+	} else {
+		order = "?notarray"
+	}
+	return groups + " " + order
+}
+
 func rtExpr(to, from string) string {
 	return fmt.Sprintf("try ((%s) as $t | try [$t, ($t | %s)] catch [$t]) catch []", to, from)
 }
@@ -268,7 +350,8 @@ var codecs = map[string]codecDef{
 // codecs whose decoder takes a binary (the others take a string)
 var decTakesBinary = map[string]bool{"latin1": true, "utf8": true, "utf16": true, "utf16le": true, "utf16be": true}
 
-var hashes = map[string]string{"md5": "to_md5", "sha1": "to_sha1", "sha256": "to_sha256", "sha512": "to_sha512"}
+var hashes = map[string]string{"md4": "to_md4", "md5": "to_md5", "sha1": "to_sha1", "sha256": "to_sha256", "sha512": "to_sha512",
+	"sha3_224": "to_sha3_224", "sha3_256": "to_sha3_256", "sha3_384": "to_sha3_384", "sha3_512": "to_sha3_512"}
 
 func parseBin(s string) (any, error) {
 	h, n, ok := strings.Cut(s, "/")
@@ -335,6 +418,32 @@ func parseOp(op string) (p parsed, err error) {
 		return parsed{`. as [$b,$t] | ` + decExpr("$t | from_radix($b)"), []any{b, string(hlib.UnHex(ws[3]))}, decObs}, nil
 	case name == "json" && dir == "rt" && len(ws) == 3:
 		return parsed{rtExpr("tojson", "fromjson | tovalue"), parseWire(ws[2]), jsonRtObs}, nil
+	case (name == "jsonind" || name == "jqlitind") && dir == "rt" && len(ws) == 4:
+		n, err1 := parseInt(ws[2])
+		if err1 != nil {
+			return p, err1
+		}
+		to, from := "$x | tojson({indent: $n})", "fromjson | tovalue"
+		if name == "jqlitind" {
+			to, from = "$x | to_jq({indent: $n})", "from_jq"
+		}
+		return parsed{`. as [$n,$x] | ` + rtExpr(to, from), []any{n, parseWire(ws[3])}, jsonRtObs}, nil
+	case name == "xmlarr" && dir == "rt" && len(ws) == 3:
+		return parsed{decExpr("to_xml | from_xml({array: true}) | tovalue"), parseWire(ws[2]), jsonDecObs}, nil
+	case name == "xmlseq" && dir == "rt" && len(ws) == 3:
+		var sb strings.Builder
+		sb.WriteString("<r>")
+		if ws[2] != "-" {
+			for i, n := range strings.Split(ws[2], ",") {
+				fmt.Fprintf(&sb, "<%s>%d</%s>", n, i, n)
+			}
+		}
+		sb.WriteString("</r>")
+		return parsed{"try (from_xml({seq: true}) | tovalue | [., (to_xml | from_xml({array: true}) | tovalue)]) catch []", sb.String(), xmlSeqObs}, nil
+	case name == "urlquery" && dir == "rt" && len(ws) == 3:
+		return parsed{rtExpr("to_urlquery", "from_urlquery"), parseWire(ws[2]), jsonRtObs}, nil
+	case name == "urlquery" && dir == "dec" && len(ws) == 3:
+		return parsed{decExpr("from_urlquery"), string(hlib.UnHex(ws[2])), jsonDecObs}, nil
 	case name == "jqlit" && dir == "rt" && len(ws) == 3:
 		return parsed{rtExpr("to_jq", "from_jq"), parseWire(ws[2]), jsonRtObs}, nil
 	case name == "json" && dir == "dec" && len(ws) == 3:
